@@ -211,6 +211,7 @@ harnesses! {
     e2n_c18_declared_signers [native 0] => battery::c18_declared_signers;
     e2n_c18_ref_inputs [native 0] => battery::c18_ref_inputs;
     e2n_c18_shared_keys [native 0] => battery::c18_shared_keys;
+    e2n_c18_many_signers [native 0] => battery::c18_many_signers;
     e2n_c07_add_output [native 0] => battery::c07_add_output;
     e2n_c07_change_min_ada [native 0] => battery::c07_change_min_ada;
     e2n_c05_change_step [native 0] => battery::c05_change_step;
